@@ -22,7 +22,7 @@ import sys
 DEFAULTS = dict(
     max_users=2, max_batches=3, max_updates=3, max_jobs_per_update=4, max_groups_per_update=2, max_depth=3,
     max_instances=3, max_ops=100, min_ops=30,
-    p_retry=0.12, p_dup=0.12, p_late=0.10, p_stale=0.05, p_always_run=0.25, p_job_private=0.2, p_cancel=0.05,
+    p_retry=0.12, p_dup=0.12, p_late=0.10, p_stale=0.08, p_always_run=0.25, p_job_private=0.2, p_cancel=0.05,
     p_never_commit=0.25, p_late_commit=0.35, p_background=0.05, p_pick=0.04, p_delete=0.10, p_deactivate=0.03, p_frontend=0.25,
     p_day_jump=0.0, p_resources=0.5, p_touch_uncommitted=0.0, p_dangling_parent=0.0, p_out_of_order=0.0,
 )
@@ -77,6 +77,7 @@ class Gen:
         self.later = []                # [(due_index, op)]  delayed / duplicated messages
         self.n_att = 0
         self.tok = 0
+        self.stale_live = []           # attempts reported by workers that are not (or no longer) any job's current attempt
 
     # ---- utilities ---------------------------------------------------------------------------------------------------
     def tick(self):
@@ -105,6 +106,13 @@ class Gen:
             if self.r.random() < p['p_stale'] and 'attempt' in op and op['attempt']:
                 st = copy.deepcopy(op)
                 st['attempt'] = 'old' + str(self.r.randint(1, 3))
+                if st['op'] in ('mark_started', 'mark_creating') and self.r.random() < 0.5:
+                    # the report of an attempt the driver never recorded (its scheduling call timed out), possibly on another worker
+                    others = [n for n, i in self.instances.items() if i['state'] == 'active' and i['ic'] != JP]
+                    if others and st['op'] == 'mark_started':
+                        st['instance'] = self.r.choice(others)
+                    st['attempt'] = f'lost{len(self.stale_live) + 1}'
+                    self.stale_live.append((st['batch'], st['job'], st['attempt'], st['instance']))
                 self.later.append((len(self.ops) + self.r.randint(0, 6), st))
 
     def flush_due(self, force=False):
@@ -359,6 +367,17 @@ class Gen:
         while len(self.ops) < n_ops and guard < 10 * n_ops:
             guard += 1
             self.flush_due()
+            if self.stale_live and r.random() < 0.08:
+                # a lost attempt ends: its worker reports completion, or the orphaned-attempt loop unschedules it
+                bb, jj, a, name = self.stale_live.pop(r.randrange(len(self.stale_live)))
+                t = self.tick()
+                if r.random() < 0.6:
+                    self.emit({'op': 'mark_complete', 'batch': bb, 'job': jj, 'attempt': a, 'instance': name, 'state': r.choice(STATES),
+                               'start': t - r.randint(0, 30), 'end': t, 'reason': 'completed', 'time': self.tick()}, message=True)
+                else:
+                    self.emit({'op': 'unschedule_job', 'batch': bb, 'job': jj, 'attempt': a, 'instance': name, 'time': t, 'reason': 'cancelled'},
+                              message=True)
+                continue
             x = r.random()
             if len(self.batches) < n_batches and x < 0.06:
                 self.act_create_batch()
